@@ -169,8 +169,12 @@ struct Parsed {
     text: String,
 }
 
+/// which jet family the parser is instantiated with (the jets-text leg switches it)
+static PARSE_ELEMENTS: std::sync::atomic::AtomicBool = std::sync::atomic::AtomicBool::new(false);
+
 fn parse_once(text: &str) -> Result<Option<Parsed>, String> {
-    match Forest::parse::<Core>(text) {
+    let parsed = if PARSE_ELEMENTS.load(std::sync::atomic::Ordering::Relaxed) { Forest::parse::<simplicity::jet::Elements>(text) } else { Forest::parse::<Core>(text) };
+    match parsed {
         Err(e) => Err(e.to_string().chars().take(200).collect()),
         Ok(f) => {
             let Some(main) = f.roots().get("main") else { return Ok(None) };
@@ -254,7 +258,9 @@ fn run(ctx: &Ctx, out: &mut Out) {
 /// options) goes through the printer and back through the type parser.
 fn leg_jets(ctx: &Ctx, out: &mut Out) {
     let leg = "jets-text";
-    let fam = Fam::Core;
+    leg_words(ctx, out);
+    for fam in [Fam::Core, Fam::Elements] {
+    PARSE_ELEMENTS.store(fam == Fam::Elements, std::sync::atomic::Ordering::Relaxed);
     let mut own = false;
     for j in 0..fam.n_jets() as u16 {
         // units of eight jets
@@ -271,7 +277,7 @@ fn leg_jets(ctx: &Ctx, out: &mut Out) {
             Node { sym: Sym::Unit, l: 0, r: 0 },
             Node { sym: Sym::Comp, l: 2, r: 3 },
         ];
-        let label = || format!("comp (comp witness {}) unit", fam.jet(j));
+        let label = || format!("{}: comp (comp witness {}) unit", fam.name(), fam.jet(j));
         if !ctx.begin(leg, &label) {
             continue;
         }
@@ -311,6 +317,8 @@ fn leg_jets(ctx: &Ctx, out: &mut Out) {
         }
         ctx.end();
     }
+    }
+    PARSE_ELEMENTS.store(false, std::sync::atomic::Ordering::Relaxed);
 }
 
 fn leg_programs(ctx: &Ctx, out: &mut Out) {
@@ -493,4 +501,62 @@ fn leg_tokens(ctx: &Ctx, out: &mut Out) {
         }
     }
     let _ = Tier::Quick;
+}
+
+/// `comp (const w) unit` for a word of every size 1..512 bits: literals and their 2^N type annotations
+fn leg_words(ctx: &Ctx, out: &mut Out) {
+    use simplicity::node::{CoreConstructible, ConstructNode};
+    use simplicity::{types, Word};
+    let leg = "words-text";
+    if !ctx.mine() {
+        return;
+    }
+    for n in 0..=9u32 {
+        for pattern in [0x00u8, 0xff, 0xa5, 0x01] {
+            let label = || format!("comp (const {}-bit word of bytes {pattern:#04x}) unit", 1u32 << n);
+            if !ctx.begin(leg, &label) {
+                continue;
+            }
+            out.evaluations += 1;
+            out.states += 1;
+            out.nontrivial += 1;
+            let r = guard(|| -> Result<(), (String, String)> {
+                let w = match n {
+                    0 => Word::u1(pattern & 1),
+                    1 => Word::u2(pattern & 3),
+                    2 => Word::u4(pattern & 15),
+                    3 => Word::u8(pattern),
+                    4 => Word::u16(u16::from_be_bytes([pattern; 2])),
+                    5 => Word::u32(u32::from_be_bytes([pattern; 4])),
+                    6 => Word::u64(u64::from_be_bytes([pattern; 8])),
+                    7 => Word::u128(u128::from_be_bytes([pattern; 16])),
+                    8 => Word::u256([pattern; 32]),
+                    _ => Word::u512([pattern; 64]),
+                };
+                let commit = types::Context::with_context(|c| {
+                    let k = Arc::<ConstructNode>::const_word(&c, w);
+                    let p = Arc::<ConstructNode>::comp(&k, &Arc::<ConstructNode>::unit(&c)).map_err(|e| e.to_string())?;
+                    p.finalize_types().map_err(|e| e.to_string())
+                })
+                .map_err(|e| ("words-text:host".to_string(), e))?;
+                let text = Forest::from_program(Arc::clone(&commit)).string_serialize();
+                out.transitions += 2;
+                match parse_twice(&text)? {
+                    Ok(Some(q)) if q.cmr == commit.cmr().to_byte_array() && q.bytes == commit.to_vec_without_witness() => Ok(()),
+                    Ok(Some(_)) => Err(("render:reparse-differs:word".into(), format!("rendered text parses to another program:\n{text}"))),
+                    Ok(None) => Err(("render:reparse-ok-without-main:word".into(), format!("rendered text parses to a forest without `main`:\n{text}"))),
+                    Err(e) => Err(("render:does-not-reparse:word".into(), format!("{e}; rendered text:\n{text}"))),
+                }
+            });
+            match r {
+                Ok(Ok(())) => {
+                    out.outcome("words-text:ok");
+                    out.sample(leg, || (label(), "rendered text parses back to the same CMR and encoding".into()));
+                }
+                Ok(Err((c, d))) => out.violation(&c, leg, label(), d),
+                Err(e) => out.violation(&panic_class(&e), leg, label(), e),
+            }
+            ctx.end();
+        }
+    }
 }
